@@ -57,6 +57,12 @@ fn attach_alias_locations_if_missing(
     reference_location: Location,
     defined_location: Location,
 ) -> Error {
+    // An inner access (the sequence element or map value where the error actually arose) has
+    // already paired the use site with the precise definition site of the failing node. The
+    // enclosing accesses only know the start of their whole container: keep the inner pair.
+    if matches!(err, Error::AliasError { .. }) {
+        return err;
+    }
     // If both locations are known and different, create an AliasError to show both.
     // This applies even if the error already has a location (from replayed anchor events),
     // because we want to show where the alias was used, not just where the anchor was defined.
